@@ -95,7 +95,11 @@ def _gen_cfg(rng, i, shard=0):
             ("edgeworth", "trapezoid", "monotonic_dominance", "joint_monotonicity"),
             ("range_dominance", "edgeworth"), ("joint_unimodality", "monotonicity")]
   fams = combos[(i + 3 * shard) % len(combos)]
-  rank = int(rng.choice([2, 2, 3]))
+  # several constraints of one family that share a feature (a second trust on the same main feature, dominance / joint
+  # pairs with a common first or second feature): Dykstra keeps one correction term per constraint, and state shared
+  # between two constraints of a family is invisible with one constraint per family
+  multi = bool(set(fams) & {"edgeworth", "trapezoid", "monotonic_dominance", "range_dominance", "joint_monotonicity"}) and rng.rand() < .5
+  rank = 3 if multi else int(rng.choice([2, 2, 3]))
   while True:
     sizes = [int(rng.choice([2, 3, 4, 5])) for _ in range(rank)]
     if int(np.prod(sizes)) <= 64:
@@ -160,6 +164,23 @@ def _gen_cfg(rng, i, shard=0):
       cand = [d]
     k = 1 if len(cand) == 1 or rng.rand() < .5 else 2
     junimod.append([[int(x) for x in rng.choice(cand, k, replace=False)], str(rng.choice(["valley", "peak"]))])
+  if multi:
+    c = int(dims[2])
+    dr2 = int(rng.choice([-1, 1]))      # one direction per feature pair (opposite directions on a pair are rejected)
+    if ew:
+      ew.append([ew[0][0], c, dr2])
+    if tz:
+      tz.append([tz[0][0], c, dr2])
+    if mdom:
+      mono[c] = 1
+      mdom.append([mdom[0][0], c] if rng.rand() < .5 else [c, mdom[0][1]])
+    if rdom:
+      mono[c] = 1
+      rdom.append([rdom[0][0], c] if rng.rand() < .5 else [c, rdom[0][1]])
+    if jmono:
+      jmono.append([jmono[0][0], c] if rng.rand() < .6 else [c, jmono[0][1]])
+    if (ew or tz) and mono[c] and any(t[0] == c for t in ew + tz):
+      pass
   # trusts need a monotone main feature
   ew = [t for t in ew if mono[t[0]]]
   tz = [t for t in tz if mono[t[0]]]
@@ -503,6 +524,28 @@ def _run_pwl(ctx, case):
       d = float(np.abs(o.astype(np.float64) - x).max())
       ctx.check("project_all_constraints/feasible-unchanged", d <= 1e-4 * scale,
                 "feasible PWL kernel moved by %.3g at %d iterations" % (d, N), info={"N": N})
+  # the same claim with convexity added (the final squeeze-by-scaling path: monotone + convex/concave + bounds)
+  from tflv.checks import c04
+  lengths_t = tf.constant(np.asarray(cfg["lengths"], dtype=np.float32))      # outside the trace (DESIGN 10.3, grappler)
+  for rep in range(6):
+    lo = [None, -2.0, -0.5, 0.0, 1.0][int(rng.randint(5))]
+    hi = None if (lo is not None and rng.rand() < .3) else (lo if lo is not None else 0.0) + float(rng.choice([1.0, 3.5]))
+    cfg2 = dict(cfg, mono=int(rng.choice([-1, 1])), conv=int(rng.choice([-1, 1])), omin=lo, omax=hi, clamp_min=False, clamp_max=False)
+    x2 = genpwl.pwl_feasible(rng, cfg2).astype(np.float32)
+    sc2 = core.scale_of(x2, [b for b in (lo, hi) if b is not None])
+    _, _, cmn2, cmx2 = plib.convert_all_constraints(lo, hi, False, False)
+    if c04.input_violation(cfg2, x2) > 1e-6 * sc2:
+      continue
+    ctx.cls("pwl:convex-feasible", "pwl:convex-feasible/mono%d/conv%d/omin:%s" % (cfg2["mono"], cfg2["conv"], "neg" if (lo or 0) < 0 else ("none" if lo is None else "nonneg")))
+    for N in (int(rng.choice([1, 8])), 200):
+      f = lambda t: plib.project_all_constraints(
+          weights=t, monotonicity=cfg2["mono"], output_min=lo, output_max=hi, output_min_constraints=cmn2,
+          output_max_constraints=cmx2, convexity=cfg2["conv"], lengths=lengths_t, num_projection_iterations=N)
+      o = (f if N < 50 else tf.function(f))(tf.constant(x2)).numpy()
+      d = float(np.abs(o.astype(np.float64) - x2).max())
+      ctx.check("project_all_constraints/feasible-unchanged", d <= 1e-4 * sc2,
+                "feasible monotone (%d) + convex (%d) PWL kernel within [%s, %s] moved by %.3g at %d iterations" % (
+                    cfg2["mono"], cfg2["conv"], lo, hi, d, N), info={"N": N, "cfg": cfg2, "x": x2.tolist()})
   w_viol = max(float((G @ w[:, u].astype(np.float64) - h).max()) for u in range(units))
   return w_viol > core.REL_TOL * scale, core.digest([cfg, core.arr_digest(w)])
 
